@@ -682,7 +682,7 @@ class NetworkXPropertyGraph(ABCPropertyGraph, NetworkXMixin):
             new_props = node_props
         else:
             for k, v in node_props.items():
-                if k in merge_properties:
+                if k in merge_properties and k in other_props:
                     new_props[k] = node_props[k] if merge_properties[k] == 'discard' else \
                         other_props[k] if merge_properties[k] == 'overwrite' else \
                             [node_props[k], other_props[k]] if merge_properties[k] == 'combine' else None
